@@ -1,15 +1,18 @@
 (* Model of the path handling behind database records (C16):
      eups/Product.py   Product.__init__ (dir / default table part), stackRoot, resolvePaths,
                        _resolve, canonicalizePaths
-     eups/utils.py     isRealFilename, isSubpath (on normalised paths, no symbolic links)
-     os.path           isabs, join, dirname, basename, str.rstrip of the slash
+     eups/utils.py     isRealFilename, isSubpath (realpath of both sides, then a prefix test)
+     os.path           isabs, join, dirname, basename, realpath, str.rstrip of the slash
      eups/db/VersionFile.py  the trimDir loop of VersionFile.write  (trim_info)
    File existence is an explicit argument  ex : str -> bool  everywhere.
+   Symbolic links and the current directory are explicit data too: [penv] holds a finite
+   table from the name of a link to the name it resolves to, and the working directory.
    Python None is the Coq None of [val]; every path is a [str].
    Executable definitions only.
 
    Two functions take a flag [fixed]: with [true] they follow the repaired code (proposed
-   fixes C16-canon-db-prefix and C16-write-none-value), with [false] the pinned code.  The
+   fixes C16-canon-db-prefix, C16-write-none-value and C16-write-relative-values), with
+   [false] the pinned code.  The
    un-flagged names used by everything else are the repaired ones. *)
 From Eupsv Require Import Base.Base.
 
@@ -90,11 +93,50 @@ Definition basename (s : str) : str :=
 Definition subpath_abs (p root : str) : bool :=
   str_eqb p root || starts_with (path_join root []) p.
 
-(* utils.isSubpath in general: both arguments are made absolute from the current
-   directory, which is assumed to be unrelated to every absolute path that occurs, so a
-   relative and an absolute path are never related *)
+(* utils.isSubpath of two paths that are both relative or both absolute and hold no
+   symbolic link (the second test of the trimDir loop, on the trimmed table file and the
+   product's ups directory): a relative and an absolute path are never related *)
 Definition subpath (p root : str) : bool :=
   if Bool.eqb (isabs p) (isabs root) then subpath_abs p root else false.
+
+(* ---------------------------------------------------------------- symbolic links, current directory *)
+
+(* A link table: (name of the link, name it stands for).  A link is named by its own
+   resolved location (no link among the components before its last one), so at most one
+   entry applies to a path. *)
+Definition links := list (str * str).
+
+(* one link followed: the first entry that is the path itself or a directory above it *)
+Fixpoint resolve1 (lk : links) (s : str) : option str :=
+  match lk with
+  | [] => None
+  | (l, t) :: lk' =>
+      if str_eqb s l || starts_with (l ++ [c_slash]) s then Some (t ++ skipn (length l) s)
+      else resolve1 lk' s
+  end.
+
+Fixpoint realpath_f (fuel : nat) (lk : links) (s : str) : str :=
+  match fuel with
+  | O => s
+  | S n => match resolve1 lk s with Some s' => realpath_f n lk s' | None => s end
+  end.
+
+(* os.path.realpath of a normalised absolute path: links are followed until none applies,
+   forty at most (the bound of the operating system) *)
+Definition link_fuel : nat := 40.
+Definition realpath (lk : links) (s : str) : str := realpath_f link_fuel lk s.
+
+Record penv := { pe_links : links; pe_cwd : str }.
+
+(* no links; the current directory is the file-system root *)
+Definition env0 : penv := {| pe_links := []; pe_cwd := [c_slash] |}.
+
+(* os.path.abspath of a normalised path *)
+Definition abs_from (cwd s : str) : str := if isabs s then s else path_join cwd s.
+
+(* existence of a path given existence of resolved names: what the harness feeds the model
+   is the listing of the real tree *)
+Definition ex_via (lk : links) (ex0 : str -> bool) (s : str) : bool := ex0 (realpath lk s).
 
 (* ---------------------------------------------------------------- macros *)
 
@@ -421,22 +463,29 @@ Definition k_productDir : str := lit "productDir".
 Definition k_ups_dir : str := lit "ups_dir".
 Definition k_table_file : str := lit "table_file".
 
-(* One pass of the loop body for key k.  A value takes part only when it exists on disk
-   (isfile or isdir).  Path components are assumed free of regular-expression
-   metacharacters other than the dot, so re.sub of the directory prefix is prefix removal.
-   [fixed = false]: a None value makes os.path.isfile raise TypeError. *)
-Definition trim_key (fixed : bool) (ex : str -> bool) (td : val) (k : str) (info : amap val)
+(* One pass of the loop body for key k.
+   Repaired code ([fixed = true]): only an absolute value is looked up on disk; a relative
+   one is left as it is.  Pinned code: a relative value was looked up from the current
+   directory, and a None value made os.path.isfile raise TypeError.
+   A value takes part when it exists (isfile or isdir) and its resolved name is the
+   resolved trimDir or below it (isSubpath); the resolved name is then cut after the
+   resolved trimDir.  Path components are assumed free of regular-expression
+   metacharacters other than the dot, so re.sub of the directory prefix is prefix removal. *)
+Definition trim_key (fixed : bool) (pe : penv) (ex : str -> bool) (td : val) (k : str) (info : amap val)
   : res (amap val) :=
   match alookup k info with
   | None => Ok info
   | Some None => if fixed then Ok info else Err Crash
   | Some (Some value) =>
-      if negb (ex value) then Ok info else
+      if fixed && negb (isabs value) then Ok info else
+      let full := abs_from (pe_cwd pe) value in
+      if negb (ex full) then Ok info else
       match td with
       | Some (c :: r) =>
-          let t := c :: r in
-          if subpath value t && negb (str_eqb t value) then
-            let v1 := after (length t) value in
+          let t := realpath (pe_links pe) (abs_from (pe_cwd pe) (c :: r)) in
+          let rv := realpath (pe_links pe) full in
+          if subpath_abs rv t && negb (str_eqb t rv) then
+            let v1 := after (length t) rv in
             let info1 := aset k (Some v1) info in
             if str_eqb (lower_str k) k_table_file then
               match alookup k_productDir info1 with
@@ -460,15 +509,15 @@ Definition trim_key (fixed : bool) (ex : str -> bool) (td : val) (k : str) (info
       end
   end.
 
-Fixpoint trim_keys (fixed : bool) (ex : str -> bool) (td : val) (keys : list str) (info : amap val)
-  : res (amap val) :=
+Fixpoint trim_keys (fixed : bool) (pe : penv) (ex : str -> bool) (td : val) (keys : list str)
+                   (info : amap val) : res (amap val) :=
   match keys with
   | [] => Ok info
-  | k :: ks => bind (trim_key fixed ex td k info) (trim_keys fixed ex td ks)
+  | k :: ks => bind (trim_key fixed pe ex td k info) (trim_keys fixed pe ex td ks)
   end.
 
-Definition trim_info_gen (fixed : bool) (ex : str -> bool) (td : val) (info : amap val)
+Definition trim_info_gen (fixed : bool) (pe : penv) (ex : str -> bool) (td : val) (info : amap val)
   : res (amap val) :=
-  trim_keys fixed ex td (akeys info) info.
+  trim_keys fixed pe ex td (akeys info) info.
 
 Definition trim_info := trim_info_gen true.
